@@ -75,6 +75,12 @@ MUTANTS = {
     "c14-intensity-out": ("pulsarbat/core.py", "        z = self.data.real ** 2 + self.data.imag ** 2\n", "        z = np.square(self.data.real, out=self.data.real) + self.data.imag ** 2\n", ["C14"]),
     "c14-meta-shared": ("pulsarbat/core.py", "    def _attr_repr(self):\n        st = ", "    def _attr_repr(self):\n        if self.meta is not None:\n            self.meta['seen'] = True\n        st = ", ["C14"]),
     "c14-shift-arg": ("pulsarbat/transforms/transforms.py", "    shift = np.array(shift)\n", "    shift = np.asarray(shift)\n    if shift.ndim:\n        shift *= 1.0000001\n", ["C14"]),
+    "c03-neg-ceil": ("pulsarbat/transforms/transforms.py", "        if a < 0:\n            a = int(np.floor(a))\n            ix = (np.s_[a:],) + it.multi_index\n            stop = min(stop, a)",
+                     "        if a < 0:\n            a = int(np.ceil(a))\n            ix = (np.s_[a:],) + it.multi_index\n            stop = min(stop, a)", ["C03"]),
+    "c03-start-min": ("pulsarbat/transforms/transforms.py", "            start = max(start, a)", "            start = min(start, a) if start else a", ["C03"]),
+    "c03-no-neg-zero": ("pulsarbat/transforms/transforms.py", "        shifted[ix] = 0\n\n    x = type(z).like(z, shifted)", "        if a >= 0 or len(it.multi_index) == 0:\n            shifted[ix] = 0\n\n    x = type(z).like(z, shifted)", ["C03"]),
+    "c03-phase-sign": ("pulsarbat/transforms/transforms.py", "ph = np.exp(-2j * np.pi * shift * f).astype(np.complex64)", "ph = np.exp(-2j * np.pi * shift * np.abs(f)).astype(np.complex64)", ["C03"]),
+    "c03-lastaxis-only": ("pulsarbat/transforms/transforms.py", "np.nditer(np.broadcast_to(shift, shifted.shape[1:]), flags", "np.nditer(np.broadcast_to(shift, shifted.shape[1:]) if shift.ndim < 2 else shift, flags", ["C03"]),
 }
 
 # behaviour-preserving edits: no check may fire
